@@ -34,7 +34,9 @@ Inductive act :=
 (* an optional rule constraint: the advance of window item [c_item] compared with a constant (cntxt_item + push_slot_attr) *)
 Inductive cmp := CLt | CGt | CEq.
 Record con := mkcon { c_item : nat; c_cmp : cmp; c_val : Z }.
-Record rule := mkrule { r_pre : nat; r_pat : list (list N); r_acts : list (list act); r_con : option con }.
+Record rule := mkrule0 { r_pre : nat; r_pat : list (list N); r_acts : list (list act); r_con : option con; r_ret : Z }.
+(* r_ret: the value the action returns: the cursor moves that many slots from the end of the window (0 = stay there) *)
+Definition mkrule (pre : nat) (pat : list (list N)) (acts : list (list act)) (c : option con) : rule := mkrule0 pre pat acts c 0.
 Definition r_sort (r : rule) : nat := length (r_pat r).
 
 Section Pass.
@@ -219,6 +221,170 @@ Section Pass.
     | p :: rest => run_passes_from (S k) nsubst rest (run_pass (Nat.leb nsubst k) (pass_fuel l) p l 0)
     end.
   Definition run_passes (nsubst : nat) (passes : list (list rule)) (l : list slot) : list slot := run_passes_from 0 nsubst passes l.
+
+  (* ---- the rule loop of Pass::runGraphite in full: cursor adjustment (r_ret), the high-water mark, highpassed, the loop counter.
+     Slots are addressed by their index in the stream; None is the null pointer. *)
+  Record lstate := mkls { ls_l : list slot; ls_s : option nat; ls_hw : option nat; ls_hp : bool; ls_lc : nat }.
+  Definition nxt (l : list slot) (k : nat) : option nat := if Nat.ltb (S k) (length l) then Some (S k) else None.
+  Definition prv (k : nat) : option nat := match k with O => None | S j => Some j end.
+  Definition oeq (a : option nat) (k : nat) : bool := match a with Some x => Nat.eqb x k | None => false end.
+  Fixpoint insert_at (l : list slot) (k : nat) (x : slot) : list slot :=
+    match k, l with
+    | O, _ => x :: l
+    | S j, [] => [x]
+    | S j, y :: r => y :: insert_at r j x
+    end.
+  Fixpoint remove_at (l : list slot) (k : nat) : list slot :=
+    match l, k with
+    | [], _ => []
+    | _ :: r, O => r
+    | y :: r, S j => y :: remove_at r j
+    end.
+
+  (* one item of a substitution rule executed at absolute index pos (the slot `is`): inserts, the item's own actions, delete, NEXT.
+     Returns the stream, the index of `is` after NEXT, the high-water index and highpassed. *)
+  Fixpoint do_inserts (acts : list act) (l : list slot) (pos : nat) (hw : option nat) (hp : bool) : list slot * nat * option nat * bool :=
+    match acts with
+    | [] => (l, pos, hw, hp)
+    | AInsert g :: rest =>
+        (* INSERT: if (is == highwater) highpassed = false; the new slot goes in front of `is`; then PUT_GLYPH; NEXT (the new slot is not the high-water slot) *)
+        let hp1 := if oeq hw pos then false else hp in
+        let hw1 := match hw with Some h => if Nat.leb pos h then Some (S h) else Some h | None => None end in
+        do_inserts rest (insert_at l pos (mkslot g (adv g) 0)) (S pos) hw1 hp1
+    | _ :: rest => do_inserts rest l pos hw hp
+    end.
+  Fixpoint has_delete (acts : list act) : bool := match acts with [] => false | ADelete :: _ => true | _ :: r => has_delete r end.
+  Fixpoint own_acts (orig : list slot) (j : nat) (acts : list act) (cur : slot) : slot :=
+    match acts with
+    | [] => cur
+    | a :: rest =>
+        let cur' := match a with
+                    | APutGlyph g => set_gid_adv cur g (adv g)
+                    | APutSubs ref incls outcls =>
+                        let q := (Z.of_nat j + ref)%Z in
+                        match (if (q <? 0)%Z then None else nth_error orig (Z.to_nat q)) with
+                        | None => cur
+                        | Some s0 => let g := match index_of (s_gid s0) incls 0 with Some ix => nth ix outcls 0 | None => 0 end in set_gid_adv cur g (adv g)
+                        end
+                    | ASetAdv v => set_adv cur v
+                    | ASetShift v => set_shx cur v
+                    | ASetShiftY v => set_shy cur v
+                    | AAttPt x y => set_att cur x y
+                    | AWithPt x y => set_with cur x y
+                    | _ => cur
+                    end in
+        own_acts orig j rest cur'
+    end.
+  Definition do_item (orig : list slot) (j : nat) (acts : list act) (l : list slot) (pos : nat) (hw : option nat) (hp : bool) : list slot * nat * option nat * bool :=
+    let '(l1, pos1, hw1, hp1) := do_inserts acts l pos hw hp in
+    let l2 := upd l1 pos1 (fun s => own_acts orig j acts s) in
+    if has_delete acts then
+      (* DELETE: if (is == highwater) highwater = is->next; unlink; is = is->prev (if any).  NEXT: if (is == highwater) highpassed = true; is = is->next *)
+      let hw2 := if oeq hw1 pos1 then (if Nat.ltb (S pos1) (length l2) then Some (S pos1) else None) else hw1 in
+      let l3 := remove_at l2 pos1 in
+      let hw3 := match hw2 with Some h => if Nat.ltb pos1 h then Some (h - 1)%nat else Some h | None => None end in
+      let hp3 := match prv pos1 with Some p => if oeq hw3 p then true else hp1 | None => hp1 end in
+      (l3, pos1, hw3, hp3)
+    else
+      (l2, S pos1, hw1, if oeq hw1 pos1 then true else hp1).
+  Fixpoint do_items (orig : list slot) (j n : nat) (acts : list (list act)) (l : list slot) (pos : nat) (hw : option nat) (hp : bool) : list slot * nat * option nat * bool :=
+    match n with
+    | O => (l, pos, hw, hp)
+    | S n' => let al := match acts with a :: _ => a | [] => [] end in
+              let '(l1, pos1, hw1, hp1) := do_item orig j al l pos hw hp in
+              do_items orig (S j) n' (match acts with _ :: ar => ar | [] => [] end) l1 pos1 hw1 hp1
+    end.
+  (* a positioning item: actions in place (attachment included), then NEXT *)
+  Fixpoint do_items_pos (orig : list slot) (st j n : nat) (acts : list (list act)) (l : list slot) (hw : option nat) (hp : bool) : list slot * option nat * bool :=
+    match n with
+    | O => (l, hw, hp)
+    | S n' => let al := match acts with a :: _ => a | [] => [] end in
+              let l1 := apply_acts_pos orig st j al l in
+              do_items_pos orig st (S j) n' (match acts with _ :: ar => ar | [] => [] end) l1 hw (if oeq hw (st + j) then true else hp)
+    end.
+
+  (* Pass::adjustSlot *)
+  Fixpoint back (n : nat) (s : option nat) (hw : option nat) (hp : bool) : option nat * bool :=
+    match n with
+    | O => (s, hp)
+    | S n' => match s with
+              | None => (None, hp)
+              | Some k => let s' := prv k in back n' s' hw (if hp && (match s', hw with Some a, Some b => Nat.eqb a b | None, None => true | _, _ => false end) then false else hp)
+              end
+    end.
+  Fixpoint fwd (n : nat) (l : list slot) (s : option nat) (hw : option nat) (hp : bool) : option nat * bool :=
+    match n with
+    | O => (s, hp)
+    | S n' => match s with
+              | None => (None, hp)
+              | Some k => fwd n' l (nxt l k) hw (if oeq hw k then true else hp)
+              end
+    end.
+  Definition adjust (l : list slot) (delta : Z) (s : option nat) (hw : option nat) (hp : bool) : option nat * bool :=
+    let '(s1, d1, hp1) :=
+      match s with
+      | Some _ => (s, delta, hp)
+      | None =>
+          if hp || (match hw with None => true | Some _ => false end) then
+            let last := match length l with O => None | S m => Some m end in
+            (last, (delta + 1)%Z, if (match hw with None => true | Some h => oeq last h end) then false else hp)
+          else ((match l with [] => None | _ => Some O end), (delta - 1)%Z, hp)
+      end in
+    if (d1 <? 0)%Z then back (Z.to_nat (- d1)) s1 hw hp1
+    else if (0 <? d1)%Z then fwd (Z.to_nat d1) l s1 hw hp1
+    else (s1, hp1).
+
+  Definition loop_step (positioning : bool) (maxloop : nat) (rules : list rule) (st : lstate) : lstate :=
+    match ls_s st with
+    | None => st
+    | Some i =>
+        let l := ls_l st in
+        let '(l1, s1, hw1, hp1) :=
+          match select rules l i 0 None with
+          | None => (l, nxt l i, ls_hw st, ls_hp st)
+          | Some (_, r) =>
+              let stw := (i - r_pre r)%nat in
+              let window := firstn (r_sort r) (skipn stw l) in
+              let n := (r_sort r - r_pre r)%nat in
+              if positioning then
+                let '(l', hw', hp') := do_items_pos window stw (r_pre r) n (r_acts r) l (ls_hw st) false in
+                let out := if Nat.ltb (stw + r_sort r) (length l') then Some (stw + r_sort r)%nat else None in
+                let '(s', hp'') := adjust l' (r_ret r) out hw' hp' in (l', s', hw', hp'')
+              else
+                let '(l', pos', hw', hp') := do_items window (r_pre r) n (r_acts r) l i (ls_hw st) false in
+                let out := if Nat.ltb pos' (length l') then Some pos' else None in
+                let '(s', hp'') := adjust l' (r_ret r) out hw' hp' in (l', s', hw', hp'')
+          end in
+        (* if (s && (s == highwater || highpassed || --lc == 0)) { if (!lc) s = highwater; lc = maxloop; if (s) highwater(s->next) } *)
+        match s1 with
+        | None => mkls l1 None hw1 hp1 (ls_lc st)
+        | Some k =>
+            if oeq hw1 k || hp1 then mkls l1 s1 (nxt l1 k) false maxloop
+            else if Nat.eqb (ls_lc st - 1) 0 then
+              match hw1 with
+              | Some h => mkls l1 hw1 (nxt l1 h) false maxloop
+              | None => mkls l1 None hw1 hp1 maxloop
+              end
+            else mkls l1 s1 hw1 hp1 (ls_lc st - 1)
+        end
+    end.
+  Fixpoint loop_run (positioning : bool) (maxloop : nat) (rules : list rule) (fuel : nat) (st : lstate) : lstate :=
+    match fuel with
+    | O => st
+    | S f => match ls_s st with None => st | Some _ => loop_run positioning maxloop rules f (loop_step positioning maxloop rules st) end
+    end.
+  Definition run_pass_adj (positioning : bool) (maxloop : nat) (rules : list rule) (l : list slot) : list slot :=
+    match l with
+    | [] => l
+    | _ => ls_l (loop_run positioning maxloop rules (maxloop * (66 * length l + 2) + 1)
+                          (mkls l (Some O) (nxt l O) false maxloop))
+    end.
+  Fixpoint run_passes_adj_from (k nsubst : nat) (passes : list (nat * list rule)) (l : list slot) : list slot :=
+    match passes with
+    | [] => l
+    | (ml, p) :: rest => run_passes_adj_from (S k) nsubst rest (run_pass_adj (Nat.leb nsubst k) (Nat.max 1 ml) p l)
+    end.
+  Definition run_passes_adj (nsubst : nat) (passes : list (nat * list rule)) (l : list slot) : list slot := run_passes_adj_from 0 nsubst passes l.
 
   (* final positioning of an unattached stream, left to right: origin = running advance + shift *)
   Fixpoint origins (l : list slot) (cur : Z) : list Z :=
